@@ -242,18 +242,6 @@ theorem registry_table_matches_tree : root.flatten none 0 = table := by decide +
 open PdsVerif.Gen.Registry in
 theorem registry_ids_nodup : root.ids.Nodup := by decide +kernel
 
-/-- The abstract families named by the property. -/
-def families : List String :=
-  ["pydrobert.speech.scales.ScalingFunction", "pydrobert.speech.filters.LinearFilterBank",
-   "pydrobert.speech.filters.WindowFunction", "pydrobert.speech.compute.FrameComputer",
-   "pydrobert.speech.pre.PreProcessor", "pydrobert.speech.post.PostProcessor"]
-
-/-- every alias of every concrete class of the family resolves, from the family, to that class -/
-def Complete (F : Cls) : Prop :=
-  ∀ c ∈ F.classes, c.concrete = true → ∀ a ∈ c.aliases, resolve F a = .ok c
-
-instance (F : Cls) : Decidable (Complete F) := by unfold Complete; infer_instance
-
 open PdsVerif.Gen.Registry in
 /-- **Registry completeness**, for the hierarchy the package has *now*: each of the six abstract families
 exists and every alias of every concrete class below it resolves from the family root to that class. -/
